@@ -270,3 +270,70 @@ def i_decl(d):
 
 def proj_inst(module):
     return [i_decl(x) for x in module.content]
+
+
+# ------------------------------------------------------------------------------------------------
+# MATLAB-oriented view of the instantiated tree (record shapes of spec/Mex.tla): the MATLAB generator formats types from
+# the typename structure (name, namespaces, instantiations), not from the C++ spelling
+def m_typename(tn):
+    return {"name": str(tn.name), "ns": [str(x) for x in tn.namespaces if str(x) != ""],
+            "insts": [m_typename(i) for i in tn.instantiations], "cpp": tn.to_cpp()}
+
+
+def m_type(t):
+    d = m_typename(t.typename)
+    d.update({"const": bool(t.is_const), "shared": bool(t.is_shared_ptr), "ptr": bool(t.is_ptr), "ref": bool(t.is_ref)})
+    return d
+
+
+M_NOTYPE = {"name": "", "ns": [], "insts": [], "cpp": "", "const": False, "shared": False, "ptr": False, "ref": False}
+
+
+def m_args(al):
+    return [{"t": m_type(a.ctype), "name": str(a.name), "hasdef": a.default is not None,
+             "def": "" if a.default is None else str(a.default)} for a in al.list()]
+
+
+def m_ret(r):
+    if r.type2:
+        return {"pair": True, "t1": m_type(r.type1), "t2": m_type(r.type2)}
+    return {"pair": False, "t1": m_type(r.type1), "t2": dict(M_NOTYPE)}
+
+
+def m_class(c, nspath):
+    pc = c.parent_class
+    return {"k": "class", "name": str(c.name), "cpp": c.to_cpp(), "nspath": nspath, "virtual": bool(c.is_virtual),
+            "templated": bool(c.instantiations), "hasbase": bool(pc), "base": m_typename(pc) if pc else
+            {"name": "", "ns": [], "insts": [], "cpp": ""},
+            "ctors": [{"args": m_args(m.args)} for m in c.ctors],
+            "methods": [{"name": str(m.name), "orig": str(m.original.name), "cpp": m.to_cpp(),
+                         "ret": m_ret(m.return_type), "args": m_args(m.args)} for m in c.methods],
+            "statics": [{"name": str(m.name), "orig": str(m.original.name), "cpp": m.to_cpp(),
+                         "ret": m_ret(m.return_type), "args": m_args(m.args)} for m in c.static_methods],
+            "props": [{"name": str(p.name), "t": m_type(p.ctype)} for p in c.properties],
+            "enums": [p_enum(e) for e in c.enums]}
+
+
+def m_items(ns, nspath):
+    out = []
+    for d in ns.content:
+        if isinstance(d, instantiator.InstantiatedClass):
+            out.append(m_class(d, nspath))
+        elif isinstance(d, parser.GlobalFunction):
+            out.append({"k": "function", "name": str(d.name), "cpp": d.to_cpp() if hasattr(d, "to_cpp") else str(d.name),
+                        "nspath": nspath, "ret": m_ret(d.return_type), "args": m_args(d.args)})
+        elif isinstance(d, parser.Namespace):
+            out.append({"k": "namespace", "name": str(d.name), "items": m_items(d, nspath + [str(d.name)])})
+        elif isinstance(d, parser.Enum):
+            out.append(p_enum(d))
+        elif isinstance(d, parser.Include):
+            out.append({"k": "include", "header": str(d.header)})
+        elif isinstance(d, instantiator.InstantiatedDeclaration):
+            out.append({"k": "fwdinst", "name": str(d.name), "cpp": d.to_cpp()})
+        else:
+            out.append({"k": "other", "name": str(getattr(d, "name", ""))})
+    return out
+
+
+def proj_minst(module):
+    return m_items(module, [])
